@@ -247,14 +247,17 @@ class InterfaceLDM4:
             "LDM Data Consumer subscribed with application id %s",
             str(subscribe_data_consumer),
         )
-        result = self.validate_subscribe_data_consumer(subscribe_data_consumer)
+        # Checked and stored in one step with respect to the consumer registry: a deregistration
+        # completing in between would otherwise leave a subscription that outlives its consumer.
+        with self.ldm_service._lock:  # pylint: disable=protected-access
+            result = self.validate_subscribe_data_consumer(subscribe_data_consumer)
 
-        if result is not None:
-            return result
+            if result is not None:
+                return result
 
-        subscription_id = self.store_subscription_info(
-            subscribe_data_consumer, callback
-        )
+            subscription_id = self.store_subscription_info(
+                subscribe_data_consumer, callback
+            )
 
         return SubscribeDataObjectsResp(
             subscribe_data_consumer.application_id,
